@@ -250,6 +250,18 @@ func runBoot(p *BootPlan, ch *simrt.Choices, keys []optKey) *bootObs {
 		}
 	}
 	sim.Run()
+	if p.FullBoot && len(obs.Opts) == 0 && opts != nil && !sim.Exited {
+		// every protocol disabled: no timer ever fires after the start-up, the
+		// scheduler returned at its idle limit instead of a second idle call
+		obs.Opts = optValues(opts)
+		if st, e := fetchStats(sim); e == "" {
+			for _, pr := range allProtos {
+				if ps := st.get(pr); ps != nil {
+					obs.Workers[pr] = ps.Workers
+				}
+			}
+		}
+	}
 	if t := sim.Panicked; t != nil {
 		obs.Panic = fmt.Sprint(t.Panic)
 		obs.Stack = t.Stack
